@@ -175,8 +175,10 @@ def run(chk, repo, tier):
         new_ok = new_ok and len(ctor) == 1 and p.ret == ctor[0].data['result']
         if ctor:
             b = ctor[0].bound
-            new_ok = new_ok and b.get('waveunit') in (nf.attr(S('self'), 'waveunit'),) and \
-                b.get('valueunit') in (nf.attr(S('self'), 'valueunit'),)
+            # self.waveunit, or what its getter returns when evaluated in place (the unit object's name / None)
+            alts = lambda nm: (nf.attr(S('self'), nm), nf.attr(nf.attr(S('self'), '_' + nm), 'name')) + \
+                ((NONE,) if any(pol and fmt(c) == f'is(self._{nm}, (None))' for c, pol, _ in p.conds) else ())
+            new_ok = new_ok and b.get('waveunit') in alts('waveunit') and b.get('valueunit') in alts('valueunit')
             ic = p.calls('radiometry._interp_common')
             if not ic:
                 wv = b.get('wave')
